@@ -41,11 +41,11 @@ PROPS = {
 }
 
 PROPS["C19"] = {
-    "harness": "pipe", "level": "exploration", "per_proc": 150,
+    "harness": "pipe", "alt_harness": "node:8", "level": "exploration", "per_proc": 150,
     "quick": {"runs": 30000, "budget_s": 240},
     "thorough": {"runs": 3000000, "budget_s": 1500, "shrink_runs": 500},
     "rule": "Each run: a generated stage tree (1-10 stages, fan-out <=4, each stage inline or on the real worker pool with 1-3 workers, outcome ok / error / panic / panic while planning, the plan of a stage a tree of 1-3 real plan nodes (root operator with children, empty root with children as in the shard scan and data load plans, or a chain) whose operator at a chosen position carries the outcome, 0-3 units of simulated work) executed by the real pipeline under a seeded schedule (every completion order of concurrently running stages is a schedule). Oracle: exactly-once completion ledger, error propagation, completion only after every started stage finished (when nothing panics), completion within 60 simulated seconds (simulated time advances only when every task is blocked, so this is starvation-free).",
-    "fault_kinds": ["stage-error", "stage-panic", "plan-panic"],
+    "fault_kinds": ["stage-error", "stage-panic", "plan-panic", "io-error@open-table", "close-reopen"],
     "real": ["query/pipeline.go, pipeline_state_matchine.go", "query/stage/base_stage.go Execute/execute (through the verif hook stage)", "internal/concurrent worker pool (dispatcher, workers, panic handler)", "query/tracker stage tracker"],
     "stub": ["plan nodes: scripted outcome and simulated work instead of query operators"],
     "assumptions": COMMON_ASSUME,
